@@ -143,6 +143,8 @@ def _opt_specs():
         "jDE": (jDE, dict(fitness_function=O.sphere, left_border=-2.0, right_border=2.0, num_variables=3), False),
         # integer-typed objective beyond 2**53: the values (and their dtype) come back from the workers exactly as the objective returned them
         "GeneticAlgorithm+bigint": (GeneticAlgorithm, dict(fitness_function=O.big_int, str_len=12, selection="rank"), False),
+        # keyword arguments re-bound between construction and fit(): serial and parallel runs both see the dictionary as it is when they evaluate
+        "GeneticAlgorithm+args": (GeneticAlgorithm, dict(fitness_function=O.scheduled, str_len=12), False),
         "SHADE+g2p": (SHADE, dict(fitness_function=O.sphere, left_border=-2.0, right_border=2.0, num_variables=3,
                                   genotype_to_phenotype=O.halve), True),
     }
@@ -168,6 +170,8 @@ def live_run(ctx, name, pop, nj, seed, iters=3):
         kw["genotype_to_phenotype_args"] = {"log": log}
     # both signs: minimization is decided by the seed so that the serial and the parallel run of a pair agree
     m = Cls(iters=iters, pop_size=pop, n_jobs=nj, keep_history=True, random_state=seed, minimization=bool(seed % 2), **kw)
+    if name.endswith("+args"):
+        kw["fitness_function_args"]["bonus"] = 2.5          # the caller updates its own dictionary after construction
     m.fit()
     stats = {k: [np.asarray(v) for v in vs] for k, vs in m.get_stats().items()}
     fittest = m.get_fittest()
@@ -316,9 +320,9 @@ def run(ctx, rep):
     if ctx.quick:
         plan = [("GeneticAlgorithm", 8, [2, -1, 13]), ("DifferentialEvolution", 10, [3, 10, -2]),
                 ("GeneticAlgorithm+g2p", 9, [2, 14, -1]), ("SHADE+g2p", 11, [2, 3]),      # a greedy-family optimizer with a phenotype map too
-                ("GeneticAlgorithm+bigint", 8, [2, 3])]
+                ("GeneticAlgorithm+bigint", 8, [2, 3]), ("GeneticAlgorithm+args", 9, [2, 3])]
     else:
-        plan = [(nm, pop, LIVE_N_JOBS(pop)) for nm, pop in zip(names, (8, 10, 9, 12, 8, 11))]
+        plan = [(nm, pop, LIVE_N_JOBS(pop)) for nm, pop in zip(names, (8, 10, 9, 12, 8, 9, 11))]
     tot_b = perm_b = 0
     for pi, (name, pop, njs) in enumerate(plan):
         seed = ctx.rng.randrange(1, 1 << 19) * 2 + (1 if pi % 2 == 0 else 0)     # alternate minimization on / off
